@@ -138,9 +138,10 @@ def rich_leaves():
     import datetime, decimal, uuid
     utc = datetime.timezone.utc
     tz5 = datetime.timezone(datetime.timedelta(hours=5))
-    return [decimal.Decimal('1.5'), decimal.Decimal('2'), decimal.Decimal('-0.25'), b'ab', b'cd', b'', datetime.datetime(2020, 1, 1, 2, 3, tzinfo=utc),
+    # no two members are == across types (2 / Decimal('2'), 2.5 / 2.5+0j): NoNumAlias
+    return [decimal.Decimal('1.5'), decimal.Decimal('7.25'), decimal.Decimal('-0.25'), b'ab', b'cd', b'', datetime.datetime(2020, 1, 1, 2, 3, tzinfo=utc),
             datetime.datetime(2021, 5, 6, 7, 8, 9, 10, tzinfo=tz5), datetime.date(2020, 1, 1), datetime.date(2021, 12, 31), datetime.time(1, 2, 3), datetime.time(23, 59),
-            datetime.timedelta(1), datetime.timedelta(seconds=5), uuid.UUID(int=1), uuid.UUID(int=2), 1 - 2j, 2.5 + 0j, frozenset({2, 3}), frozenset(), frozenset({'a'}),
+            datetime.timedelta(1), datetime.timedelta(seconds=5), uuid.UUID(int=1), uuid.UUID(int=2), 1 - 2j, 3.5 + 1j, frozenset({2, 3}), frozenset(), frozenset({'a'}),
             2, 3, 'a', 'b', None, 2.5, float('inf'), 'é', '', 'multi\nline', 'multi\nline2', 10 ** 20]
 
 
